@@ -274,6 +274,16 @@ class TimeCachingAdapter(Adapter, NoBranchAdapter, ABC):
             else:
                 self._total_mem -= d[1].nbytes
 
+    def _unpack(self, where):
+        # cached data is in the units of the incoming data, which may differ
+        # from the adapter's outgoing units (SumOverTime)
+        if isinstance(where, str):
+            self.logger.profile("reading data from file %s", where)
+            data = np.load(where, allow_pickle=True)
+            return dtools.UNITS.Quantity(data, self._input_info.units)
+
+        return where
+
     def _finalize(self):
         """Remove the files of data that was stored to disk."""
         for _t, d in self.data:
